@@ -1022,7 +1022,17 @@ impl SignedDuration {
         self,
         rhs: SignedDuration,
     ) -> Option<SignedDuration> {
-        let Some(rhs) = rhs.checked_neg() else { return None };
+        let Some(rhs) = rhs.checked_neg() else {
+            // `rhs` can't be negated only when its seconds are `i64::MIN`. But
+            // the difference may still be representable (for example,
+            // `MIN - MIN`). In that case, shift both operands by one second
+            // so that `rhs` can be negated. If shifting `self` overflows, then
+            // the difference necessarily overflows too.
+            let one = SignedDuration::new_unchecked(1, 0);
+            let Some(lhs) = self.checked_add(one) else { return None };
+            let Some(rhs) = rhs.checked_add(one) else { return None };
+            return lhs.checked_sub(rhs);
+        };
         self.checked_add(rhs)
     }
 
